@@ -370,7 +370,9 @@ pub fn run(rep: &Report) {
         }
         let mut sp = Spell::random(rng.fork(1));
         let lay = Layout { trailing_newline: i % 2 == 0, filler_pct: 20, pack_pct: if i % 4 == 0 { 20 } else { 0 }, comments: false };
-        let text = p.render(&mut sp, &lay).text;
+        // now and then at another scale (hundreds / tens of thousands of lines in front, deep indentation)
+        let (pad, indent) = if i % 3 == 2 { rand_scale(&mut rng) } else { (0, 0) };
+        let text = p.render(&mut sp, &lay).scaled(pad, indent).text;
         let cli = collided || i % (if t { 6 } else { 5 }) == 0;
         check_program(rep, &p, &text, if core { Some(format!("rnd{}", i)) } else { None }, cli, "random");
         if i == 3 {
